@@ -1,9 +1,10 @@
 #!/bin/bash
-# usage: try_seed_scratch.sh <seed-dir> <property-id>  -- like try_seed.sh but on a scratch copy of /repo (never touches /repo)
+# usage: [BASE=<repo copy>] [SPECLIB=<dir>] try_seed_scratch.sh <seed-dir> <property-id>
+# like try_seed.sh but on a scratch copy of /repo (never touches /repo); BASE/SPECLIB select experimental copies
 SD=$(realpath $1); ID=$2; S=$(mktemp -d /tmp/repo_try.XXXXXX)
-rsync -a --exclude .git /repo/ $S/ || exit 2
+rsync -a --exclude .git ${BASE:-/repo}/ $S/ || exit 2
 ( cd $S && patch -p1 -s --no-backup-if-mismatch < "$SD/patch.diff" ) || { echo "PATCH-DOES-NOT-APPLY $SD"; rm -rf $S; exit 3; }
-cd /verif && VERIF_REPO=$S timeout 1500 ./bin/govc check -no-evidence "$ID" > /tmp/try_seed.out 2>&1; rc=$?
+cd /verif && VERIF_REPO=$S timeout 1500 ${GOVC:-./bin/govc} check -no-evidence ${SPECLIB:+-speclib $SPECLIB} "$ID" > /tmp/try_seed.out 2>&1; rc=$?
 rm -rf $S
 grep -c "^VIOLATION" /tmp/try_seed.out | sed "s/^/violations: /"; grep "^VIOLATION" /tmp/try_seed.out | cut -c1-300 | head -5; tail -1 /tmp/try_seed.out
 echo "exit=$rc"
